@@ -922,6 +922,8 @@ package whispertool
 //@                 && ghost(nlocked, 0) == old(ghost(nlocked, 0)) + ghost(locked, result0.file)
 //@                 && (forall k :: 0 <= k && k < fsize(result0.fileBuf) ==> fbyte(result0.fileBuf, k) == dbyte(result0.file, k))
 //@   ensures[C13] no_leak: result1 != nil ==> result0 == nil && ghost(nopen, 0) == old(ghost(nopen, 0)) && ghost(nlocked, 0) == old(ghost(nlocked, 0))
+//@   assert[C13] lock_before_read: w.flock ==> ghost(locked, w.file) == 1 && ghost(lockmode, w.file) == 2 before (*Whisper).readHeader
+//@   assert[C13] lock_before_stat: w.flock ==> ghost(locked, w.file) == 1 before (*File).Stat
 
 //@ loop Open#0
 //@   invariant w: w.pageSize >= 512 && w.pageSize <= 1073741824
